@@ -163,6 +163,7 @@ class Summary:
     captures: set = field(default_factory=set)  # params whose value (or a wrapper of it) is stored into a caller-owned object
     shared_into_doc: list = field(default_factory=list)  # (func, node, text, origins): a memoised object stored into a document
     skey: tuple = ()
+    try_sources: dict = field(default_factory=dict)  # id(Try node) -> {(what, node, exc)} raising points its handlers receive
 
 
 class Dirty:
@@ -174,12 +175,13 @@ class Dirty:
 
 
 class Handler:
-    __slots__ = ("names", "entry", "entered")
+    __slots__ = ("names", "entry", "entered", "sources")
 
     def __init__(self, names):
         self.names = names
         self.entry = None
         self.entered = False
+        self.sources = set()  # (what, node, exc) of every raising point that lands here
 
 
 class Effects:
@@ -385,6 +387,7 @@ class _Fn:
             dirty = None
         if h is not None:
             h.entered = True
+            h.sources.add((what, node, exc))
             if dirty is not None:
                 h.entry = dirty if h.entry is None else Dirty(h.entry.text, h.entry.line, h.entry.origins | dirty.origins, h.entry.func)
             if callee_dirty:
@@ -965,7 +968,8 @@ class _Fn:
                     exc = ast.unparse(s.exc)
             else:
                 exc = self.cur_handler_exc[-1] if self.cur_handler_exc else "Exception"
-            self.raise_(exc, s, handlers, dirty, "raise")
+            for e_ in (exc if isinstance(exc, tuple) else (exc,)):
+                self.raise_(e_, s, handlers, dirty, "raise")
             return dirty, True
         if isinstance(s, (ast.Continue, ast.Break)):
             self._loop_dirty = self._merge_dirty(getattr(self, "_loop_dirty", None), dirty)
@@ -1062,14 +1066,16 @@ class _Fn:
                 it, dirty = self.ev(s.iter, env, handlers, dirty)
                 e1 = dict(env)
                 self.bind(s.target, self._elem(it, s.iter, env), e1)
-            d, _ = self.run_block(s.body, e1, handlers, dirty, in_closure)
-            d = self._merge_dirty(d, self._loop_dirty)
+            # a body that leaves the function on its fall-through path (`if not match: continue` / … / `return`) hands
+            # only the state of its `continue` / `break` exits to the next iteration and to the code after the loop
+            d, t_ = self.run_block(s.body, e1, handlers, dirty, in_closure)
+            d = self._merge_dirty(None if t_ else d, self._loop_dirty)
             if isinstance(s, ast.While):
                 _, d = self.ev(s.test, e1, handlers, d)
             else:
                 self.bind(s.target, self._elem(it, s.iter, env), e1)
-            d, _ = self.run_block(s.body, e1, handlers, d, in_closure)
-            d = self._merge_dirty(d, self._loop_dirty)
+            d, t_ = self.run_block(s.body, e1, handlers, d, in_closure)
+            d = self._merge_dirty(None if t_ else d, self._loop_dirty)
             self._loop_dirty = saved_loop
             self.join(env, e1, dict(env))
             out = self._merge_dirty(d, dirty)
@@ -1093,6 +1099,7 @@ class _Fn:
             H = Handler(names)
             e0 = dict(env)
             d, t = self.run_block(s.body, env, handlers + [H], dirty, in_closure)
+            self.S.try_sources.setdefault(id(s), set()).update(H.sources)
             if not t and s.orelse:
                 d, t = self.run_block(s.orelse, env, handlers, d, in_closure)
             dh, allterm = d, t
@@ -1100,7 +1107,10 @@ class _Fn:
                 eh = dict(e0)
                 if h.name:
                     eh[h.name] = NONE
-                nm = ast.unparse(h.type) if h.type is not None and not isinstance(h.type, ast.Tuple) else "Exception"
+                if isinstance(h.type, ast.Tuple):
+                    nm = tuple(ast.unparse(x) for x in h.type.elts)  # a bare `raise` re-raises one of the caught classes
+                else:
+                    nm = ast.unparse(h.type) if h.type is not None else "Exception"
                 self.cur_handler_exc.append(nm)
                 # the handler is entered with the dirty state recorded at the raising points of the body
                 dd, tt = self.run_block(h.body, eh, handlers, H.entry, in_closure)
